@@ -134,3 +134,118 @@ func NilReturnsNotGuarded(ds *Describer, fn *ssa.Function, errIdx int, guard Gua
 	}
 	return out
 }
+
+// NilDeref is a dereference of a pointer/interface value that is nil on some path reaching it.
+type NilDeref struct {
+	Value   ssa.Value
+	Use     ssa.Instruction
+	Why     string
+	Witness []ssa.Instruction
+}
+
+func isDerefUse(v ssa.Value, in ssa.Instruction) bool {
+	switch x := in.(type) {
+	case *ssa.FieldAddr:
+		return x.X == v
+	case *ssa.Field:
+		return false
+	case *ssa.UnOp:
+		return x.X == v && x.Op.String() == "*"
+	case *ssa.IndexAddr:
+		_, isPtr := v.Type().Underlying().(*types.Pointer)
+		return x.X == v && isPtr
+	case ssa.CallInstruction:
+		c := x.Common()
+		if c.IsInvoke() && c.Value == v {
+			return true
+		}
+	}
+	return false
+}
+
+// MaybeNilDerefs finds uses that dereference a value which is (a) a phi with a nil-constant leaf, or (b) the
+// non-error result of a call whose error result is not tested non-nil-and-left before the use, where no
+// guard establishes value != nil on the path from the nil source to the use.
+func MaybeNilDerefs(ds *Describer, fn *ssa.Function) []NilDeref {
+	var out []NilDeref
+	for _, b := range fn.Blocks {
+		for _, in := range b.Instrs {
+			phi, ok := in.(*ssa.Phi)
+			if !ok {
+				continue
+			}
+			switch phi.Type().Underlying().(type) {
+			case *types.Pointer, *types.Interface:
+			default:
+				continue
+			}
+			if phi.Referrers() == nil {
+				continue
+			}
+			for _, lf := range PhiLeaves(phi, phi) {
+				nilSrc := ""
+				if IsNilConst(lf.V) {
+					nilSrc = "is nil when control arrives from " + "this edge"
+				} else if ex, ok := lf.V.(*ssa.Extract); ok {
+					// result of (T, error) call: nil when the error is non-nil, unless the error edge left the function
+					if call, ok := ex.Tuple.(*ssa.Call); ok {
+						sig := call.Call.Signature()
+						n := sig.Results().Len()
+						if n >= 2 && IsErrorType(sig.Results().At(n-1).Type()) && ex.Index != n-1 {
+							errEx := ExtractOf(call, n-1)
+							if errEx != nil && lf.Pred != nil {
+								// can the phi edge be reached with err != nil ?
+								w := UnguardedLeaf(ds, fn, call, lf, func(c Cond) int { return ErrNilSucc(c, errEx) })
+								if w != nil {
+									nilSrc = "is the result of a call whose error was not nil"
+								}
+							}
+						}
+					}
+				}
+				if nilSrc == "" || lf.Pred == nil {
+					continue
+				}
+				for _, use := range *phi.Referrers() {
+					if !isDerefUse(phi, use) {
+						continue
+					}
+					guard := NonNilGuard(ds, phi)
+					est := map[*ssa.BasicBlock]int{}
+					for _, bb := range fn.Blocks {
+						if len(bb.Instrs) == 0 {
+							continue
+						}
+						if ifi, ok := bb.Instrs[len(bb.Instrs)-1].(*ssa.If); ok {
+							if s := guard(DecodeCond(ds, ifi)); s >= 0 {
+								est[bb] = s
+							}
+						}
+					}
+					// search from the phi's block (entered from the nil edge) to the use
+					q := PathQuery{Fn: fn, From: phi, Target: func(x ssa.Instruction) bool { return x == use }, Edge: func(bb *ssa.BasicBlock, succ int) bool {
+						if s, ok := est[bb]; ok && s == succ {
+							return false
+						}
+						return true
+					}}
+					if w := q.Find(); w != nil {
+						dup := false
+						for i, o := range out {
+							if o.Value == ssa.Value(phi) {
+								dup = true
+								if use.Pos() < o.Use.Pos() {
+									out[i] = NilDeref{Value: phi, Use: use, Why: nilSrc, Witness: append([]ssa.Instruction{lf.At}, w...)}
+								}
+							}
+						}
+						if !dup {
+							out = append(out, NilDeref{Value: phi, Use: use, Why: nilSrc, Witness: append([]ssa.Instruction{lf.At}, w...)})
+						}
+					}
+				}
+			}
+		}
+	}
+	return out
+}
